@@ -177,3 +177,43 @@ def rule_admit_live(ctx):
                       expected='cache.get(key) is the op\'s entry (same EntryInfo) before handle_admit')
     r.require_floor(2, 'admission paths')
     return r
+
+
+def rule_must_drain(ctx):
+    r = RuleResult('MUST-drain', 'the maintenance run applies queued reads whenever the read queue is non-empty and queued writes whenever the write '
+                   'queue is non-empty, independent of configuration: queued ops (which hold keys, values and entry references) never pile up')
+    prog = ctx.prog
+    R = get_roles(ctx)
+    if not R.maintenance:
+        return r
+    consumers = {}
+    for n in _maintenance_fns(ctx):
+        b = prog.bodies[n]
+        if b.kind == 'closure':
+            continue
+        for _, t in b.calls():
+            if prog.call_targets(b, t)[1] == 'crossbeam_channel::Receiver::try_recv':
+                ty = t.get('self_ty', {}).get('s', '')
+                consumers[n] = 'read' if 'ReadOp' in ty else ('write' if 'WriteOp' in ty else '?')
+    for m in sorted(R.maintenance):
+        sx = ctx.symex(inline_depth=1, loop_visits=2, inline_pred=lambda n, b, d: False)
+        paths = [p for p in sx.run(m) if not p.diverged]
+        for p in paths:
+            for kind, chan in (('read', 'read_op_ch'), ('write', 'write_op_ch')):
+                nonempty = None
+                for c, v in p.conds:
+                    if isinstance(c, tuple) and c[0] == 'cmp' and any(isinstance(x, tuple) and x and x[0] == 'call' and str(x[1]).endswith('Receiver::len') and
+                                                                         chan in fmt(x) for x in subterms(c)) and any(x == ('c', 0) for x in subterms(c)):
+                        # lt(0, len) == True   /  le(len, 0) == False
+                        if (c[1] == 'lt' and c[2] == ('c', 0) and v is True) or (c[1] == 'le' and c[3] == ('c', 0) and v is False):
+                            nonempty = True
+                if not nonempty:
+                    continue
+                called = any(e[0] == 'call' and consumers.get(e[1]) == kind for e in p.events)
+                r.instance(function=m, queue=kind, nonempty=True, consumer_called=called)
+                if not called:
+                    r.violate(m, 'queue-not-drained', kind, 'a path of the maintenance run sees a non-empty %s queue but does not apply it (conditions: %s)' % (
+                        kind, [fmt(c)[:50] + '==' + str(v) for c, v in p.conds][:6]), where=ctx.where(m),
+                        expected='if %s.len() > 0 { apply }  -- unconditionally' % chan)
+    r.require_floor(2, 'paths with a non-empty queue')
+    return r
